@@ -90,6 +90,7 @@ type Obl struct {
 	Inputs []InputSym // symbols to report in counterexamples
 	Expect string     // "unsat" (default) or "sat" (covers/canaries)
 	Detail string     // for syntactic obligations: why the goal is false
+	Info   string     // for syntactic obligations: what was examined
 }
 
 type InputSym struct {
